@@ -114,7 +114,7 @@ def main(ctx):
                 oracle_fail.append((n, items, bad))
     ctx.sample({"n": cases[3][0], "items": cases[3][1], "impl": impl_out[3]})
     ctx.sample({"n": cases[-1][0], "items": cases[-1][1][:8], "impl_keys": len((impl_out[len(cases) - 1].get("ok") or []))})
-    model_out = core.Driver().batch(reqs)
+    model_out = core.Driver(ctx.pid).batch(reqs)
     mismatches = [(reqs[i], impl_out[i], model_out[i]) for i in range(len(reqs)) if impl_out[i] != model_out[i]]
     cov = ctx.coverage
     cov["distinct_nontrivial"] = len(nontrivial)
